@@ -1,4 +1,4 @@
-import Hive.Proofs.SerixRoundTrip
+import Hive.Proofs.SerixNoPanic
 /-!
 # C01 (binary serix part) — the codec round-trips every encodable value
 
@@ -63,11 +63,13 @@ theorem C01_optional_empty_witness :
     decode t [0, 0, 0, 0] ⟨false, false⟩ = .ok (.l [.nil], 4) := by
   decide
 
-/-- Elements with empty encodings under "lexical order + no duplicates": the validating encoder
-accepts two equal elements, the validating decoder rejects the bytes (known finding). -/
-theorem C01_empty_dups_witness :
+/-- Elements with empty encodings under "lexical order + no duplicates": since fix 3a2407b the
+validating encoder refuses two equal elements exactly as the validating decoder does (before, the
+writer's validator took the empty previous element for "no previous element" and accepted them). -/
+theorem C01_empty_dups_example :
     let t : Ty := .slice .u8 { lex := true, noDups := true } (.struct none .nil)
-    encode t (.l [.l [], .l []]) ⟨true, false⟩ = .ok [2] ∧ decode t [2] ⟨true, false⟩ = .err := by
+    t.wf = true ∧ encode t (.l [.l [], .l []]) ⟨true, false⟩ = .err ∧ decode t [2] ⟨true, false⟩ = .err ∧
+    encode t (.l [.l []]) ⟨true, false⟩ = .ok [1] := by
   decide
 
 /-- Two distinct timestamps beyond the int64-nanosecond range used as map keys saturate to the same
@@ -85,11 +87,14 @@ theorem C01_binary_statement_fails_witness : ¬ C01_binary_statement := by
   revert h1
   decide
 
-/-- The one place where `Encode` itself panics (validation, must-occur rule, nil interface element):
-`checkArrayMustOccur` dereferences the element before `encodeInterface` can refuse it. -/
-theorem C01_mustoccur_nil_panic_witness :
+/-- `Encode` never panics, on any schema and any value (the last place — validation, must-occur
+rule, nil interface/pointer element — returns an error since fix a0f81e4). -/
+theorem C01_encode_no_panic (t : Ty) (v : Val) (o : Opts) : encode t v o ≠ .panic :=
+  ep_ty t true v o
+
+theorem C01_mustoccur_nil_example :
     let shape : Ty := .iface .u8 (.cons 100 (.ptr (.struct (some ⟨.u8, 100⟩) .nil)) .nil)
-    encode (.slice .u8 { mustOccur := [100] } shape) (.l [.nil]) ⟨true, false⟩ = .panic ∧
+    encode (.slice .u8 { mustOccur := [100] } shape) (.l [.nil]) ⟨true, false⟩ = .err ∧
     encode (.slice .u8 { mustOccur := [100] } shape) (.l [.nil]) ⟨false, false⟩ = .err := by
   decide
 
